@@ -145,19 +145,33 @@ def _flow_block(blocks, n, st, only_term=False):
             if pl["p"]:
                 # a field write into l: its variant stays, anything derived from it does not matter here
                 continue
+            st0 = st if not any(k == l or (isinstance(k, tuple) and k[1] == l) for k in st) else dict(st)
             for k in [k for k in st if k == l or (isinstance(k, tuple) and k[1] == l)]:
                 del st[k]
             rv = s["rv"]
+            if rv["k"] == "use" and rv["ops"][0].get("k") in ("copy", "move") and len(rv["ops"][0]["p"]) == 2:
+                # `v = move (r as Continue).0` / `(r as Ok).0` / `(o as Some).0`: the payload whose variant was remembered
+                o = rv["ops"][0]
+                pp = o["p"]
+                if isinstance(pp[0], dict) and pp[0].get("d") is not None and isinstance(pp[1], dict) and pp[1].get("f") == 0 \
+                        and ("pl", o["l"]) in st0 and st0.get(o["l"]) in ("Ok", "Some", "Continue"):
+                    st[l] = st0[("pl", o["l"])]
             if rv["k"] == "aggregate" and rv.get("variant") is not None:
                 st[l] = rv["variant"]
                 if rv.get("adt"):
                     st[("adt", l)] = rv["adt"]
+                # `Ok(None)`: the variant of the single payload is remembered as well (one level)
+                if len(rv["ops"]) == 1 and rv["ops"][0].get("k") in ("copy", "move") and not rv["ops"][0]["p"] \
+                        and st0.get(rv["ops"][0]["l"]) in ("Ok", "Err", "Some", "None"):
+                    st[("pl", l)] = st0[rv["ops"][0]["l"]]
             elif rv["k"] == "use" and rv["ops"][0].get("k") in ("copy", "move") and not rv["ops"][0]["p"]:
                 m = rv["ops"][0]["l"]
                 if m in st:
                     st[l] = st[m]
                     if ("adt", m) in st:
                         st[("adt", l)] = st[("adt", m)]
+                    if ("pl", m) in st:
+                        st[("pl", l)] = st[("pl", m)]
                 if ("bool", m) in st:
                     st[("bool", l)] = st[("bool", m)]
             elif rv["k"] == "discr" and not rv["place"]["p"]:
@@ -184,6 +198,8 @@ def _flow_block(blocks, n, st, only_term=False):
             m = a0["l"]
             if cn.endswith("as std::ops::Try>::branch") and st.get(m) in ("Ok", "Err", "Some", "None"):
                 st[l] = "Continue" if st[m] in ("Ok", "Some") else "Break"
+                if ("pl", m) in st and st[m] in ("Ok", "Some"):
+                    st[("pl", l)] = st[("pl", m)]
             elif cn.endswith(("bool>::then_some", "bool>::then")) and ("bool", m) in st:
                 # `b.then_some(v)` / `b.then(|| v)`: Some exactly when b
                 st[l] = "Some" if st[("bool", m)] else "None"
@@ -562,6 +578,8 @@ def _derives(du, l, path, B, depth, blocks):
         if d[0] == "call":
             t = d[3]
             cn = callee_name(t) or ""
+            if cn.endswith("::from_residual") and path and path[0][0] == "d" and path[0][1] in ("Ok", "Some", "Continue"):
+                continue                      # the Err / None a `?` returns early: not what an Ok / Some projection reads
             a0 = t["args"][0] if t["args"] else None
             if a0 is None or a0.get("k") not in ("copy", "move"):
                 return None
@@ -773,11 +791,25 @@ def _increments_every_cycle(cfg, du, loop, l):
     return any(_on_every_cycle(cfg, loop, b) for b in blocks)
 
 
+def _reader_helpers(F):
+    """functions of the crate, public or not, that issue a cursor / stream read themselves and are small enough to inline"""
+    out = set()
+    for g in F.fns.values():
+        if g.crate != "rws" or g.kind not in ("Fn", "AssocFn") or len(g.raw["blocks"]) > 80:
+            continue
+        for _, t in g.calls():
+            if (t.get("callee") or "") in READN or (callee_name(t) or "") in READN:
+                out.add(g.def_)
+                break
+    return out
+
+
 def loop_rule(ctx, chk, prop, rule_name, seen):
     F = ctx.F
     r = chk.rule(rule_name, "every natural loop exits on the None arm of a finite iterator, on a cursor read's EOF/error, or on a strictly advancing bounded counter")
     from .renames import rekey_loop
     allow = {rekey_loop(ctx, e["loop"]): e for e in ctx.table("safe_sites").get("loops", [])}
+    readers = None
     for n in sorted(seen):
         fn = F.fns.get(n)
         if fn is None or fn.kind == "Promoted":
@@ -791,12 +823,22 @@ def loop_rule(ctx, chk, prop, rule_name, seen):
                 if inl is None:
                     from .inline import inlined
                     inl = inlined(F, fn)
-                if inl is not fn:
-                    for lp2 in loops_of(inl):
+                for attempt, body in (("private helpers inlined", inl), ("reader helpers inlined", None)):
+                    if lp.form:
+                        break
+                    if body is None:
+                        # `while let Some(line) = Self::read_line(cursor)?` where the read itself sits one more call down, in a public
+                        # line reader: small crate functions that issue the cursor read themselves are inlined as well
+                        if readers is None:
+                            readers = _reader_helpers(F)
+                        body = inlined(F, fn, also=tuple(sorted(readers - {fn.def_})))
+                    if body is fn:
+                        continue
+                    for lp2 in loops_of(body):
                         if lp2.header == lp.header:
-                            classify(inl, lp2)
+                            classify(body, lp2)
                             if lp2.form:
-                                lp.form, lp.why = lp2.form, lp2.why + " (private helpers inlined)"
+                                lp.form, lp.why = lp2.form, lp2.why + " (%s)" % attempt
                             break
             cfg = cfg_of(fn)
             line = cfg.blocks[lp.header]["term"]["span"]["line"]
